@@ -1715,6 +1715,16 @@ impl<'t, 'b> G<'t, 'b> {
             out.push(mk(self, "p", body));
             self.features.insert("print-of-a-local-holding-a-scoped-value");
         }
+        // a set comprehension over a list that holds one value twice, whose element makes a
+        // graph node: one node per element of the list, not per distinct value
+        if self.t.chance(1, 3) {
+            let node = sc(self, "q", &name);
+            let src = Expr::List(vec![Expr::Str("a".into()), Expr::Str("b".into()), Expr::Str("a".into())]);
+            let comp = Expr::SetComp { id: self.id(), elem: Box::new(Expr::Call { func: "node".into(), args: vec![] }), var_id: self.id(), var: "dz".into(), src: Box::new(src) };
+            let st = Stmt::AttrNode { id: self.id(), node, attrs: vec![Attr { name: "made".into(), value: Some(comp) }] };
+            out.push(mk(self, "q", vec![st]));
+            self.features.insert("set-comprehension-with-an-effect-over-repeated-values");
+        }
         self.features.insert("one-attribute-from-two-stanzas");
         out
     }
